@@ -10,6 +10,14 @@ pub struct Iter<'a> {
 impl<'a> Iter<'a> {
     // [start, end)
     pub(super) fn new(bases: &'a [u8], start: usize, end: usize) -> Self {
+        if start >= end {
+            return Self {
+                iter: bases[..0].iter(),
+                front: None,
+                back: None,
+            };
+        }
+
         let i = start / 2;
         let j = end.div_ceil(2);
         let mut iter = bases[i..j].iter();
@@ -20,13 +28,11 @@ impl<'a> Iter<'a> {
             iter.next().map(|&n| discard_front_decoded_bases(n))
         };
 
-        let base_count = end - start;
-
-        // This assumes `bases.len() * 2` is only ever `base_count` or `base_count` + 1.
-        let back = if bases.len() * 2 > base_count {
-            iter.next_back().map(|&n| discard_back_decoded_bases(n))
-        } else {
+        // The last byte holds one base of `[start, end)` iff `end` is odd.
+        let back = if end.is_multiple_of(2) {
             None
+        } else {
+            iter.next_back().map(|&n| discard_back_decoded_bases(n))
         };
 
         Self { iter, front, back }
